@@ -315,8 +315,16 @@ class Program:
                     raise AnalysisIncomplete("syntax error in %s: %s" % (path, e))
                 from .desugar import desugar_module
 
+                # the module as written (for the rules about shared state and modes, which judge idioms the
+                # front-end makes transparent to everything else)
+                raw_tree = ast.parse(src, filename=path)
+                for parent in ast.walk(raw_tree):
+                    for child in ast.iter_child_nodes(parent):
+                        child._parent = parent
+                raw_tree._parent = None
                 tree = desugar_module(tree)
                 mod = ModuleInfo(name, path, tree, src, is_pkg, root=self.repo)
+                mod.raw_tree = raw_tree
                 self.modules[name] = mod
                 self._index(mod)
 
